@@ -1659,7 +1659,9 @@ def evaluate(ctx, cases):
             if dropped:
                 ctx.hist("emit:unsetup-eups/dropped-variable-in-caller-env")
         ctx.hist("ncmds=%s" % min(len(io_["cmds"]), 10))
-        if any(x.startswith("export ") and "='" in x for x in io_["cmds"]):
+        # (from the case, not from what the implementation printed: a floor must not depend on the code under test)
+        vals = [v for _, v in c["new"]] if kind == "emit" else [a.get("v") or "" for a in c["acts"]]
+        if any(quoted_literal(v) for v in vals):
             ctx.hist("quoted-value")
         if m.get("unmodelled"):
             ctx.hist(kind + ":unmodelled")
